@@ -250,7 +250,7 @@ macro_rules! k8v {
                 assert!(ctx.block_status == exp);
                 assert!(ctx.n_success == passes && ctx.n_unary_fail == fails);
             }
-            kani::cover!(got == PASS && negation && not_op);
+            kani::cover!(got == PASS && negation);
             kani::cover!(got == FAIL && negation);
             forget(r);
             forget(clause);
